@@ -1411,6 +1411,28 @@ pub fn build(full_name: &str, level: u8) -> Option<Scenario> {
                 s.prefix.push(Action::Crash(2, 9));
                 s.down_forever = vec![2];
             }
+            if n.contains("-selfelect") {
+                // voters {1,2}; leader 1 demoted itself to learner (it keeps leading), so node 2
+                // is the only voter. Node 2 persists asynchronously; it asked for a snapshot,
+                // received it, handed the Ready over with advance_append_async and is not yet
+                // told that it is persisted. It may time out now.
+                s = Scenario::new(name, 2);
+                s.voters = vec![1, 2];
+                s.nodes[1].mode = AppMode::Async;
+                s.cc_menu = vec![CcSpec::V1(2, 1)];
+                s.prefix = vec![
+                    Action::Timeout(1),
+                    Action::Settle,
+                    Action::ProposeCc(1, 0),
+                    Action::Settle,
+                    Action::RequestSnap(2),
+                    Action::Settle0(2),
+                    Action::Deliver(2, 1),
+                    Action::Settle0(1),
+                    Action::Deliver(1, 2),
+                    Action::ReadyAsync(2),
+                ];
+            }
             if n.contains("-stall") {
                 // node 2 is gone for good; follower 3 persisted the leader's newest entry, its
                 // acknowledgement was lost, and its application asks for a snapshot: the request
@@ -1513,6 +1535,11 @@ pub fn build(full_name: &str, level: u8) -> Option<Scenario> {
                 s.crashable = vec![];
                 s.timeoutable = vec![];
             }
+            if n.contains("-selfelect") {
+                s.crashable = vec![];
+                s.timeoutable = vec![2];
+                s.clients_at = vec![];
+            }
             if n.contains("-lazy") {
                 s.inputs_per_ready = 2;
             }
@@ -1568,6 +1595,11 @@ pub fn build(full_name: &str, level: u8) -> Option<Scenario> {
                 if n.contains("-busy") {
                     // the leader's application is still building the snapshot once
                     c.snapbusy = 1;
+                }
+                if n.contains("-selfelect") {
+                    c.timeouts = 1;
+                    c.snapfail = 0;
+                    c.beats = 0;
                 }
                 if n.contains("-to1") {
                     // the lagging follower may time out once (with -gpv: pre-campaign)
